@@ -188,6 +188,110 @@ struct Prog {
     impl_orders: Vec<[&'static str; 2]>,
     with_builtin: bool,
     with_container: bool,
+    /// further modules of the program
+    files: Vec<(String, String)>,
+    /// (case index, case index, `monolabel` request): two instantiations of one generic function at two
+    /// same-named types — they need two labels
+    label_pairs: Vec<(usize, usize, String)>,
+}
+
+/// Two modules declare types with the SAME unqualified names (`Item`, a struct; `Kind`, an enum) with
+/// different layouts and their own Tg / ToString / Equal / Ord implementations; one program
+/// instantiates the same generic functions (plain, with a capturing closure) and interface methods
+/// at both.  Implementation 0 = the main module's type, 1 = the imported module's.
+fn multi_module_prog(rng: &mut Rng) -> Prog {
+    let base = "interface Tg {\n  fn tag(self) -> string\n  fn alt(self) -> string\n}\n\
+fn g1t(x: T Tg) -> string { Tg.tag(x) }\nfn g1a(x: T Tg) -> string { Tg.alt(x) }\n\
+fn h3t(x: T Tg, p: string) -> string {\n  let f = () -> p .. Tg.tag(x)\n  f()\n}\n\
+fn h3a(x: T Tg, p: string) -> string {\n  let f = () -> p .. Tg.alt(x)\n  f()\n}\n\
+fn gstr(a: T ToString) -> string { ToString.str(a) }\n\
+fn geq(a: T Equal, b: T Equal) -> bool { a == b }\n\
+fn glt(a: T Ord, b: T Ord) -> bool { a < b }\n\
+fn ggt(a: T Ord, b: T Ord) -> bool { a > b }\n";
+    let impls = |k: usize, ty: &str, key: &str, swap: bool| -> String {
+        let (m1, m2) = if swap { ("alt", "tag") } else { ("tag", "alt") };
+        format!(
+            "implement Tg for {ty} {{\n  fn {m1}(self) -> string {{ \"{k}.{m1}\" }}\n  fn {m2}(self) -> string {{ \"{k}.{m2}\" }}\n}}\n\
+implement ToString for {ty} {{\n  fn str(s) {{ \"{k}.str\" }}\n}}\n\
+implement Equal for {ty} {{\n  fn equal(a, b) {{\n    println(\"{k}.equal\")\n    {key}\n  }}\n}}\n\
+implement Ord for {ty} {{\n  fn less_than(a, b) {{\n    println(\"{k}.less_than\")\n    true\n  }}\n  fn less_than_or_equal(a, b) {{ true }}\n  fn greater_than(a, b) {{\n    println(\"{k}.greater_than\")\n    false\n  }}\n  fn greater_than_or_equal(a, b) {{ false }}\n}}\n"
+        )
+    };
+    let mut inv = String::from("use base\ntype Item = { qty: int }\ntype Kind = | Ka | Kb\n");
+    inv.push_str(&impls(1, "Item", "true", rng.chance(1, 2)));
+    inv.push_str(&impls(1, "Kind", "true", rng.chance(1, 2)));
+    let mut src = String::from("use base\n");
+    if rng.chance(2, 3) {
+        src.push_str("use inv except (Item, Kind)\n");
+    }
+    src.push_str("use inv as iv\ntype Item = { name: string, w: int }\ntype Kind = | Kx(int) | Ky\n");
+    src.push_str(&impls(0, "Item", "true", rng.chance(1, 2)));
+    src.push_str(&impls(0, "Kind", "true", rng.chance(1, 2)));
+    // values: [main's, inv's] per type name
+    let vals: [(&str, [&str; 2], [&str; 2]); 2] =
+        [("Item", ["Item(\"a\", 1)", "iv.Item(3)"], ["N40[]", "N41[]"]), ("Kind", ["Kind.Kx(2)", "iv.Kind.Ka"], ["N42[]", "N43[]"])];
+    // (function, model signature, call type, interface methods, method index, is binary)
+    let fns: [(&str, &str, &str, &str, &str, usize, bool); 9] = [
+        ("g1t", "F[p1>s]", "F[p0>s]", "F[p1>s]", "tag+alt", 0, false),
+        ("g1a", "F[p1>s]", "F[p0>s]", "F[p1>s]", "tag+alt", 1, false),
+        ("h3t", "F[p1,s>s]", "F[p0>s]", "F[p1>s]", "tag+alt", 0, false),
+        ("h3a", "F[p1,s>s]", "F[p0>s]", "F[p1>s]", "tag+alt", 1, false),
+        ("gstr", "F[p1>s]", "F[p0>s]", "F[p1>s]", "str", 0, false),
+        ("geq", "F[p1,p1>b]", "F[p0,p0>b]", "F[p1,p1>b]", "equal", 0, true),
+        ("glt", "F[p1,p1>b]", "F[p0,p0>b]", "F[p1,p1>b]", "less_than+less_than_or_equal+greater_than+greater_than_or_equal", 0, true),
+        ("ggt", "F[p1,p1>b]", "F[p0,p0>b]", "F[p1,p1>b]", "less_than+less_than_or_equal+greater_than+greater_than_or_equal", 2, true),
+        ("dot", "F[>v]", "F[p0>s]", "", "tag+alt", 0, false),
+    ];
+    let mut cases = vec![];
+    let mut label_pairs = vec![];
+    for (tyname, vs, terms) in vals {
+        for (f, sig, msig, callty, methods, midx, binary) in fns {
+            let first = rng.below(2) as usize; // which module's type is instantiated first
+            let mut idxs = [0usize; 2];
+            for step in 0..2 {
+                let k = if step == 0 { first } else { 1 - first };
+                let (v, term) = (vs[k], terms[k]);
+                let q = cases.len();
+                let m = methods.split('+').nth(midx).unwrap();
+                let (expr, sig_s, inst, callty_s) = if f == "dot" {
+                    (format!("Tg.tag({v})"), "F[>v]".to_string(), "F[>v]".to_string(), format!("F[{term}>s]"))
+                } else if f.starts_with("h3") {
+                    (format!("{f}({v}, \"\")"), sig.to_string(), format!("F[{term},s>s]"), callty.to_string())
+                } else if binary {
+                    (format!("{f}({v}, {v})"), sig.to_string(), format!("F[{term},{term}>b]"), callty.to_string())
+                } else {
+                    (format!("{f}({v})"), sig.to_string(), format!("F[{term}>s]"), callty.to_string())
+                };
+                let all = vec![methods; 2].join(";");
+                let req = format!("mono {sig_s} {inst} {msig} {callty_s} {};{} {methods} {all} {midx} #same-name-{f}:{tyname}", terms[0], terms[1]);
+                cases.push(Case {
+                    req,
+                    expr: format!("println(\"#{q}\")\nprintln({expr})\n"),
+                    expect: format!("impl={k} method={m}"),
+                    what: format!("`{expr}`: two modules declare a type `{tyname}`; this value is the {} module's", if k == 0 { "main" } else { "imported" }),
+                    prelude: false,
+                    op_req: None,
+                });
+                idxs[step] = q;
+            }
+            if f != "dot" {
+                label_pairs.push((idxs[0], idxs[1], format!("monolabel {} {} #same-name-{f}:{tyname}", terms[0], terms[1])));
+            }
+        }
+    }
+    for c in &cases {
+        src.push_str(&c.expr);
+    }
+    Prog {
+        src,
+        cases,
+        impl_names: vec!["main.Item", "inv.Item"],
+        impl_orders: vec![],
+        with_builtin: false,
+        with_container: false,
+        files: vec![("base.abra".to_string(), base.to_string()), ("inv.abra".to_string(), inv)],
+        label_pairs,
+    }
 }
 
 fn gen_prog(rng: &mut Rng, idx: usize) -> Prog {
@@ -358,7 +462,7 @@ fn gen_prog(rng: &mut Rng, idx: usize) -> Prog {
     for c in &cases {
         src.push_str(&c.expr);
     }
-    Prog { src, cases, impl_names: chosen.iter().map(|&ci| uni[ci].name).collect(), impl_orders, with_builtin: with_builtin || with_num, with_container }
+    Prog { src, cases, impl_names: chosen.iter().map(|&ci| uni[ci].name).collect(), impl_orders, with_builtin: with_builtin || with_num, with_container, files: vec![], label_pairs: vec![] }
 }
 
 /// what ran, from the lines printed for one case
@@ -451,7 +555,11 @@ fn main() {
     for i in 0..n_prog {
         progs.push(gen_prog(&mut ctx.rng, i));
     }
-    let results = par_map(&progs, |p| run_program(&p.src));
+    let n_multi = if ctx.quick() { 12 } else { 200 };
+    for _ in 0..n_multi {
+        progs.push(multi_module_prog(&mut ctx.rng));
+    }
+    let results = par_map(&progs, |p| run_program_opts(&p.src, &RunOpts { files: p.files.clone(), ..Default::default() }));
     for (p, r) in progs.iter().zip(results) {
         ctx.count(&format!("impls:{}", p.impl_names.len()));
         for o in &p.impl_orders {
@@ -470,7 +578,11 @@ fn main() {
                 Outcome::Crash(m) => m.lines().next().unwrap_or("").to_string(),
                 o => o.tag(),
             };
-            ctx.spec_fail(format!("program does not run ({}): {detail}\n{}", r.outcome.tag(), p.src));
+            let mut text = p.src.clone();
+            for (n, f) in &p.files {
+                text.push_str(&format!("--- {n}\n{f}"));
+            }
+            ctx.spec_fail(format!("program does not run ({}): {detail}\n{text}", r.outcome.tag()));
             for c in &p.cases {
                 ctx.case(c.req.clone(), format!("not-run {}", r.outcome.tag()));
             }
@@ -489,6 +601,14 @@ fn main() {
                 segs.entry(c).or_default().push(line.to_string());
             }
         }
+        // two instantiations at same-named types: did each run its own code (two labels) or one body (one label)?
+        for (qa, qb, lreq) in &p.label_pairs {
+            let ok = |q: &usize| observe(&segs.get(q).cloned().unwrap_or_default(), &p.cases[*q]) == p.cases[*q].expect;
+            ctx.case(lreq.clone(), if ok(qa) && ok(qb) { "distinct" } else { "same" });
+        }
+        if !p.files.is_empty() {
+            ctx.count("program:two-modules-same-type-names");
+        }
         let mut shown = false;
         for (q, c) in p.cases.iter().enumerate() {
             let lines = segs.get(&q).cloned().unwrap_or_default();
@@ -503,7 +623,15 @@ fn main() {
             }
             if imp != c.expect {
                 // the whole program goes with the first failure of a program
-                let prog = if shown { String::new() } else { format!("\nprogram:\n{}", p.src) };
+                let prog = if shown {
+                    String::new()
+                } else {
+                    let mut t = format!("\nprogram:\n--- main.abra\n{}", p.src);
+                    for (n, f) in &p.files {
+                        t.push_str(&format!("--- {n}\n{f}"));
+                    }
+                    t
+                };
                 shown = true;
                 ctx.spec_fail(format!("{}: ran `{imp}` (output {:?}), the implementation declared for the type is `{}`{prog}", c.what, lines, c.expect));
             }
